@@ -2,7 +2,8 @@
 """Regenerate tools/tie_map.json: for each property C01..C19 the `*_eq` theorems of Lemmas/TranslatedEq.lean that the
 property's theorems rest on = the functions named for it in DESIGN.md section 7 / the task statement, plus every whitelisted
 model function mentioned in lean/SqlDt/Props/Cxx*.lean or in the Lemmas files these import directly, closed under the call
-graph of the translated functions (TranslatedStatus.json).  Run after tools/rs2lean.py."""
+graph of the translated functions (TranslatedStatus.json).  Each list also contains the `_safe` theorems (Lemmas/TranslatedSafe.lean) of those functions; C02 and C03 list all of them.
+Run after tools/rs2lean.py."""
 import json,re,glob,os
 os.chdir(os.path.join(os.path.dirname(os.path.abspath(__file__)), '..'))
 st=json.load(open('lean/SqlDt/TranslatedStatus.json'))['functions']
@@ -15,6 +16,13 @@ for f in st:
     if 'trunc' in f['model']: names=['Timestamp.trunc']
     for n in names: m2eq.setdefault(n,set()).add(eq)
     calls[eq]=set('SqlDt.TrEq.'+c.replace('SqlDt.Tr.','')+'_eq' for c in f.get('calls',[]))
+safe_of_eq = {}
+for f in st:
+    if 'safety' in f:
+        lean = f['lean'].replace('SqlDt.Tr.', '')
+        safe_of_eq['SqlDt.TrEq.' + lean + '_eq'] = 'SqlDt.TrSafe.' + lean + '_safe'
+
+
 def closure(s):
     s=set(s); todo=list(s)
     while todo:
@@ -32,7 +40,7 @@ declared={
  'C10': E('date2julian','julian2date','Date.extract','Timestamp.extract','Timestamp.date','Timestamp.time','Timestamp.trunc_day','Timestamp.trunc_hour','Timestamp.trunc_minute','Date.day_of_week','Date.sub_days'),
  'C11': E('date2julian','julian2date','Date.extract','Timestamp.extract','Timestamp.date','Timestamp.time','Date.day_of_week','Date.add_days','Date.sub_days'),
  'C12': E('Time.add_interval_dt','Time.sub_interval_dt','Time.sub_time','Time.from_interval_dt'),
- 'C13': E('IntervalYM.extract','IntervalDT.extract','IntervalYM.negate','IntervalDT.negate','IntervalYM.try_from_ym','IntervalDT.try_from_dhms','IntervalYM.from_ym_unchecked','IntervalDT.from_dhms_unchecked'),
+ 'C13': E('IntervalYM.cmp','IntervalYM.extract','IntervalDT.extract','IntervalYM.negate','IntervalDT.negate','IntervalYM.try_from_ym','IntervalDT.try_from_dhms','IntervalYM.from_ym_unchecked','IntervalDT.from_dhms_unchecked'),
  'C16': E('OracleDate.from_timestamp','OracleDate.new'),
  'C17': E('date2julian','julian2date','Date.extract','Timestamp.extract','Timestamp.date','Timestamp.time','Date.partial_cmp_timestamp','Date.eq_timestamp','Date.and_zero_time'),
 }
@@ -50,6 +58,12 @@ for i in range(1,20):
     for n,eqs in m2eq.items():
         if re.search(r"(?<![A-Za-z0-9_.])%s(?![A-Za-z0-9_])"%re.escape(n), text): hits|=eqs
     assert hits<=alleq, hits-alleq
-    tie[pid]=sorted(closure(hits))
+    eqs = closure(hits)
+    # the safety theorem of every function whose `_eq` the property rests on; C02 (results in range) and C03 (no
+    # panic, in either overflow mode) rest on the safety of every translated function
+    safes = set(safe_of_eq[e] for e in eqs if e in safe_of_eq)
+    if pid in ('C02', 'C03'):
+        safes |= set(safe_of_eq.values())
+    tie[pid]=sorted(eqs) + sorted(safes)
 json.dump(tie, open('tools/tie_map.json','w'), indent=1, sort_keys=True)
 for k,v in tie.items(): print(k,len(v))
